@@ -29,7 +29,7 @@ func runC03(c *core.Ctx) {
 		setCase(c, "int", u, func(a, b int) bool { return a < b }, func(v int) string { return fmt.Sprint(v) })
 	case 1:
 		u := []string{"a", "b", "c", "dd", "e", "", "g", "h"}[:c.R.Range(1, 8)]
-		setCase(c, "string", u, func(a, b string) bool { return a < b }, nil)
+		setCase(c, "string", u, func(a, b string) bool { return a < b }, func(v string) string { return v })
 	case 2:
 		u := []p8{{0, 0}, {0, 1}, {1, 0}, {1, 1}, {-1, 2}, {2, -1}}[:c.R.Range(1, 6)]
 		setCase(c, "struct", u, func(a, b p8) bool { return a.A < b.A || (a.A == b.A && a.B < b.B) }, nil)
@@ -113,7 +113,12 @@ func setCase[T comparable](c *core.Ctx, tname string, univ []T, less func(a, b T
 				fail(op+":String["+o.impl+"]", fmt.Sprintf("%s.String()=%q", o.name, s))
 				return false
 			}
-			toks := strings.Fields(s[1 : len(s)-1])
+			// exactly the members, each once, separated by single blanks (a member may
+			// print as the empty string)
+			toks := strings.Split(s[1:len(s)-1], " ")
+			if len(want) == 0 && len(s) == 2 {
+				toks = nil
+			}
 			sort.Strings(toks)
 			var wt []string
 			for _, v := range want {
